@@ -233,6 +233,9 @@ func (c *specCtx) eval(x *SExpr) *SVal {
 		return c.binary(x)
 	case "quant":
 		return c.quant(x)
+	case "let":
+		v := c.eval(x.Args[0])
+		return c.withBind(map[string]*SVal{x.Name: v}).eval(x.Args[1])
 	case "call":
 		return c.call(x)
 	}
@@ -282,6 +285,9 @@ func (c *specCtx) isLocal(name string) bool {
 // lookupLocal finds a Go variable of the function under verification by name.
 func (c *specCtx) lookupLocal(name string) *types.Var {
 	var best *types.Var
+	if c.st == nil {
+		return nil
+	}
 	for v := range c.st.vars {
 		if v.Name() != name {
 			continue
@@ -301,7 +307,7 @@ func (c *specCtx) ident(name string) *SVal {
 	if !c.pure {
 		if v := c.lookupLocal(name); v != nil {
 			fr := c.fr
-			if fr.top.fn.boxed[v] || fr.fn.boxed[v] {
+			if fr.top != nil && (fr.top.fn.boxed[v] || fr.fn.boxed[v]) {
 				ref := c.st.vars[v]
 				if isStructVal(v.Type()) {
 					return &SVal{T: ref, Ty: v.Type(), Obj: true}
